@@ -5,6 +5,19 @@ From IKE Require Import Lib.Base Lib.BaseLemmas Thm.Tactics Thm.ConsLemmas Prim.
 From Coq Require Import Permutation.
 Local Open Scope N_scope.
 
+(* the packets the API builds: attributes in the setter's form (wf_akattr: AT_KDF with length 1) *)
+Definition dom_eapdataS (d : eapdata) : Prop :=
+  match d with
+  | EDAka st rs attrs => st < 256 /\ rs < 65536 /\ Forall wf_akattr attrs /\ NoDup (map at_type attrs)
+  | _ => dom_eapdata d
+  end.
+Definition dom_eapS (e : eap) : Prop := e_code e < 256 /\ e_id e < 256 /\ dom_eapdataS (e_data e).
+Lemma dom_eapS_dom e : dom_eapS e -> dom_eap e.
+Proof.
+  intros (Hc & Hi & Hd). split; [exact Hc|]. split; [exact Hi|]. destruct (e_data e); try exact Hd.
+  destruct Hd as (H1 & H2 & H3 & H4). repeat split; auto. eapply Forall_impl; [|exact H3]. apply wf_wfd.
+Qed.
+
 Definition mac_attr (v : bytes) : akattr := mkAkAttr 11 5 0 v.
 Definition zm (a : akattr) : akattr := if at_type a =? 11 then mac_attr (zeros 16) else a.
 
@@ -143,7 +156,7 @@ Section M.
 
   (* zeroing AT_MAC in the packet as sent = the packet the code is computed over *)
   Lemma zero_mac_of_sent e v wire :
-    dom_eap e -> is_aka e -> length v = 16%nat -> eap_marshal (with_mac v e) = Ok wire -> len wire < 65536 ->
+    dom_eapS e -> is_aka e -> length v = 16%nat -> eap_marshal (with_mac v e) = Ok wire -> len wire < 65536 ->
     eap_marshal (with_mac (zeros 16) e) = Ok (zero_mac wire).
   Proof.
     destruct e as [code id [| | | | |st rs attrs]]; intros (Hc & Hi & Hd) Ha Lv Hm Hlen; unfold is_aka in Ha; cbn [e_data] in Ha; try contradiction.
@@ -172,7 +185,7 @@ Section M.
 
   (* C15 sender side *)
   Theorem calc_at_mac_spec e key v wire :
-    dom_eap e -> is_aka e -> length v = 16%nat -> eap_marshal (with_mac v e) = Ok wire -> len wire < 65536 ->
+    dom_eapS e -> is_aka e -> length v = 16%nat -> eap_marshal (with_mac v e) = Ok wire -> len wire < 65536 ->
     exists e', calc_at_mac sha256 (with_mac v e) key = Ok (at_mac_spec sha256 key wire, e') /\
                calc_at_mac sha256 e key = Ok (at_mac_spec sha256 key wire, e').
   Proof.
@@ -193,17 +206,17 @@ Section M.
   (* C15 receiver side, for packets in the library's wire form (ascending attribute types, zero reserved/padding octets):
      the receiver decodes the packet and computes exactly the sender's code *)
   Theorem receiver_agrees e key v wire :
-    dom_eap e -> is_aka e -> length v = 16%nat -> eap_marshal (with_mac v e) = Ok wire -> len wire < 65536 ->
+    dom_eapS e -> is_aka e -> length v = 16%nat -> eap_marshal (with_mac v e) = Ok wire -> len wire < 65536 ->
     exists e' e'', eap_unmarshal wire = Ok e' /\ calc_at_mac sha256 e' key = Ok (at_mac_spec sha256 key wire, e'').
   Proof.
     intros He Ha Lv Hm Hlen.
-    assert (Hd' : dom_eap (with_mac v e) /\ is_aka (with_mac v e)).
+    assert (Hd' : dom_eapS (with_mac v e) /\ is_aka (with_mac v e)).
     { destruct e as [code id [| | | | |st rs attrs]]; destruct He as (Hc & Hi & Hd); unfold with_mac, is_aka in *; cbn [e_data e_code e_id] in *; try contradiction.
       destruct Hd as (Hst & Hrs & Hw & Hn). split; [|exact I]. repeat split; cbn; auto.
       - apply aka_set_wf; [exact Hw|now apply mac_attr_wf].
       - now apply aka_set_nodup. }
     destruct Hd' as [Hd' Ha'].
-    pose proof (eap_rt _ _ Hd' Hm Hlen) as Hrt. exists (norm_eap (with_mac v e)).
+    pose proof (eap_rt _ _ (dom_eapS_dom _ Hd') Hm Hlen) as Hrt. exists (norm_eap (with_mac v e)).
     (* the normalised packet marshals to the same octets *)
     assert (Hm' : eap_marshal (with_mac v (norm_eap (with_mac v e))) = Ok wire).
     { destruct e as [code id [| | | | |st rs attrs]]; destruct He as (Hc & Hi & Hd); unfold with_mac, norm_eap, is_aka in *; cbn [e_data e_code e_id] in *; try contradiction.
@@ -227,7 +240,7 @@ Section M.
       rewrite Hin.
       rewrite (aka_marshal_perm_invariant st rs (aka_sort A) A); [exact Hm|apply aka_sort_perm|].
       eapply Permutation_NoDup; [|exact HA]. apply Permutation_map. symmetry. apply aka_sort_perm. }
-    assert (Hdn : dom_eap (norm_eap (with_mac v e)) /\ is_aka (norm_eap (with_mac v e))).
+    assert (Hdn : dom_eapS (norm_eap (with_mac v e)) /\ is_aka (norm_eap (with_mac v e))).
     { destruct (with_mac v e) as [code id [| | | | |st rs attrs]]; destruct Hd' as (Hc & Hi & Hd); unfold norm_eap, is_aka in *; cbn [e_data e_code e_id] in *; try contradiction.
       destruct Hd as (Hst & Hrs & Hw & Hn). cbn [e_data norm_eapdata]. split; [|exact I]. repeat split; cbn; auto.
       - eapply Permutation_Forall; [symmetry; apply aka_sort_perm|exact Hw].
@@ -241,17 +254,17 @@ Section M.
      after setting AT_MAC to zero (so a change of any other octet changes the input of the HMAC; that the code then
      differs is the collision resistance of HMAC-SHA-256, outside what can be proved here) *)
   Theorem mac_input_determines_packet e1 e2 b :
-    dom_eap e1 -> dom_eap e2 -> is_aka e1 -> is_aka e2 ->
+    dom_eapS e1 -> dom_eapS e2 -> is_aka e1 -> is_aka e2 ->
     eap_marshal (with_mac (zeros 16) e1) = Ok b -> eap_marshal (with_mac (zeros 16) e2) = Ok b -> len b < 65536 ->
     norm_eap (with_mac (zeros 16) e1) = norm_eap (with_mac (zeros 16) e2).
   Proof.
     intros H1 H2 A1 A2 M1 M2 Hl.
-    assert (D : forall e, dom_eap e -> is_aka e -> dom_eap (with_mac (zeros 16) e)).
+    assert (D : forall e, dom_eapS e -> is_aka e -> dom_eapS (with_mac (zeros 16) e)).
     { intros e (Hc & Hi & Hd) Ha. destruct e as [code id [| | | | |st rs attrs]]; unfold with_mac, is_aka in *; cbn [e_data e_code e_id] in *; try contradiction.
       destruct Hd as (Hst & Hrs & Hw & Hn). repeat split; cbn; auto.
       - apply aka_set_wf; [exact Hw|now apply mac_attr_wf].
       - now apply aka_set_nodup. }
-    pose proof (eap_rt _ _ (D e1 H1 A1) M1 Hl) as R1. pose proof (eap_rt _ _ (D e2 H2 A2) M2 Hl) as R2. congruence.
+    pose proof (eap_rt _ _ (dom_eapS_dom _ (D e1 H1 A1)) M1 Hl) as R1. pose proof (eap_rt _ _ (dom_eapS_dom _ (D e2 H2 A2)) M2 Hl) as R2. congruence.
   Qed.
 End M.
 
